@@ -238,3 +238,47 @@ Proof.
   - apply IH; [exact Hnd' | intros a Ha; apply H1; right; exact Ha
               | intros a b Ha Hb; apply H2; right; assumption].
 Qed.
+
+(* ---------- the leaf positions of conforming elements are their leaves, in order ---------- *)
+Lemma quads_flat :
+  forall (sp : space) (x1 x2 out : elem), conf sp x1 -> conf sp x2 -> conf sp out ->
+  map q_x1 (quads sp x1 x2 out) = flat x1 /\ map q_x2 (quads sp x1 x2 out) = flat x2
+  /\ map q_out (quads sp x1 x2 out) = flat out.
+Proof.
+  intros sp.
+  apply (space_mut
+    (fun sp => forall x1 x2 out, conf sp x1 -> conf sp x2 -> conf sp out ->
+       map q_x1 (quads sp x1 x2 out) = flat x1 /\ map q_x2 (quads sp x1 x2 out) = flat x2
+       /\ map q_out (quads sp x1 x2 out) = flat out)
+    (fun sps => forall p1 p2 po, confs sps p1 -> confs sps p2 -> confs sps po ->
+       map q_x1 (quadss sps p1 p2 po) = flats p1 /\ map q_x2 (quadss sps p1 p2 po) = flats p2
+       /\ map q_out (quadss sps p1 p2 po) = flats po)).
+  - intros fl [i1|?] [i2|?] [io|?] C1 C2 Co; cbn in *; try contradiction. auto.
+  - intros sps IH [?|p1] [?|p2] [?|po] C1 C2 Co; cbn in *; try contradiction. apply IH; assumption.
+  - intros [|? ?] [|? ?] [|? ?] C1 C2 Co; cbn in *; try contradiction. auto.
+  - intros sp' IHsp sps IHsps [|x p1] [|y p2] [|o po] C1 C2 Co; cbn in C1, C2, Co; try contradiction.
+    destruct C1 as [C1 C1'], C2 as [C2 C2'], Co as [Co Co'].
+    cbn [quadss flats]. rewrite !map_app.
+    destruct (IHsp x y o C1 C2 Co) as (A1 & A2 & A3).
+    destruct (IHsps p1 p2 po C1' C2' Co') as (B1 & B2 & B3).
+    rewrite A1, A2, A3, B1, B2, B3. auto.
+Qed.
+
+(* out-of-place operations: a fresh output element (pairwise distinct leaves, none of them a
+   leaf of an operand) satisfies the aliasing condition *)
+Lemma wf_fresh_elem (sp : space) (x1 x2 out : elem) :
+  conf sp x1 -> conf sp x2 -> conf sp out ->
+  NoDup (flat out) ->
+  (forall i, In i (flat out) -> ~ In i (flat x1) /\ ~ In i (flat x2)) ->
+  wf (quads sp x1 x2 out).
+Proof.
+  intros C1 C2 Co Hnd Hdis.
+  destruct (quads_flat sp x1 x2 out C1 C2 Co) as (A1 & A2 & A3).
+  apply wf_fresh.
+  - rewrite A3. exact Hnd.
+  - intros q q' Hq Hq'.
+    assert (Ho : In (q_out q) (flat out)) by (rewrite <- A3; apply in_map; exact Hq).
+    destruct (Hdis _ Ho) as [N1 N2]. split; intros E.
+    + apply N1. rewrite <- E, <- A1. apply in_map. exact Hq'.
+    + apply N2. rewrite <- E, <- A2. apply in_map. exact Hq'.
+Qed.
